@@ -2,6 +2,9 @@ import Lean.Data.Json
 import GristModel
 import Driver.Treeview
 import Driver.Engine
+import Driver.FormulaRename
+import Driver.PredRename
+import Driver.Codebuilder
 import Driver.Lookup
 import Driver.Lenient
 import Driver.Trigger
@@ -48,6 +51,9 @@ def handleStateless (m : String) (j : Json) : Except String Json :=
   | "trigger" => handleTrigger j
   | "lenient" => LenientD.handleLenient j
   | "lookup" => Grist.Driver.LookupD.handleLookup j
+  | "codebuilder" => handleCodebuilder j
+  | "predrename" => Grist.Driver.PredRename.handlePredRename j
+  | "formularename" => handleFormulaRename j
   | _ => throw s!"unknown model {m}"
 
 structure AllState where
